@@ -282,3 +282,6 @@ func evalOp(t Table, o Op) (Table, bool) {
 }
 
 func hexOf(s string) string { return hex.EncodeToString([]byte(s)) }
+
+// sessT wraps a session (room for per-session harness state).
+type sessT struct{ *sqleng.Session }
